@@ -203,11 +203,6 @@ def _judge_subset(obs, spec, pm, x, tag):
             expected_functions(obs, spec, cfg, stop.fres, fv[:, :n_obj0], (fv[:, n_obj0:] if spec["n_con"] else None))
             obs.count("split_stopped_after_functions")
             continue
-        except ValueError:
-            if spec.get("merge"):
-                obs.count("trivial.merged_empty_system")
-                continue
-            raise
         results[path] = (fres, gres)
         obs.count("flags_checked", 2)
         n_obj = len(spec["oweights"])
@@ -230,7 +225,7 @@ def _judge_subset(obs, spec, pm, x, tag):
                 rs = _reduced(spec, keep)
                 try:
                     f2, g2, _, _ = _run(rs, ens.make_config(rs), pm, "combined", x)
-                except (OptimizationAborted, ValueError, _SplitStops):
+                except (OptimizationAborted, _SplitStops):
                     f2 = g2 = None
                 if f2 is not None and f2.functions is not None and g2.gradients is not None and fres.functions is not None:
                     obs.count("differential_compared")
@@ -250,7 +245,7 @@ def _judge_subset(obs, spec, pm, x, tag):
             obs.count("garbage_compared")
             if not (_same_results(results["combined"][0], f3) and _same_results(results["combined"][1], g3)):
                 obs.violation("failed_row_values_influence_result", tag=tag)
-        except (OptimizationAborted, ValueError, _SplitStops):
+        except (OptimizationAborted, _SplitStops):
             pass
     # split and combined agree on the function result
     if len(results) == 2 and not _same_results(results["combined"][0], results["split"][0]):
@@ -279,11 +274,6 @@ def _judge_history(obs, spec, pm, x, subsets, F):
         except OptimizationAborted:
             obs.count("aborted_by_filter_or_estimator")
             continue
-        except ValueError:
-            if spec.get("merge"):
-                obs.count("trivial.merged_empty_system")
-                continue
-            raise
         finally:
             # the evaluator's call counter selects the rules: one combined evaluation is one call
             if len(ev.calls) != n_calls + 1:
